@@ -499,7 +499,7 @@ theorem EqInv.init {w : Wiring} (react : React Val) {t : SimTime} {roots : List 
   have := EqPre.schedule (tk := (Ticker.startTick w t roots : Ticker Val))
     (EqPre.start w react t roots) rfl rfl hs
   rw [hin, htr]
-  simpa using this
+  simpa [Ticker.startTick] using this
 
 theorem EqInv.step {w : Wiring} (hw : RouterOK w) {react : React Val} (hr : ReactWF react)
     {t : SimTime} {roots : List Comp} {s s' : TickSys Val} {i : Nat} (hi : TickInv w t roots s)
@@ -519,5 +519,173 @@ theorem TickSys.Reachable.eqInv {w : Wiring} (hw : RouterOK w) {react : React Va
   induction hs with
   | init h => exact EqInv.init react h
   | step hs' h ih => exact ih.step hw hr hs'.inv h
+
+/-! ### run-independent description of a dispatch -/
+
+/-- input port `q` of `c` is fed `v` by the reaction of its source to the dispatch the source
+received in `tr` (no reference to positions in the trace). -/
+def Fed (w : Wiring) (react : React Val) (tr : List (Ev Val)) (c : Comp) (q : Port) (v : Val) :
+    Prop :=
+  ∃ a p d, w.Conn a p c q ∧ dispatchOf tr a = some d ∧ alookup (answerOf react d) p = some v
+
+/-- two dispatches of the same component in a reachable trace coincide. -/
+theorem PreInv.dispatch_unique {w : Wiring} {t : SimTime} {roots : List Comp}
+    {tu : List (Comp × Bool)} {pending : List (Dispatch Val)} {trace : List (Ev Val)}
+    (h : PreInv w t roots tu pending trace) {d d' : Dispatch Val} (hd : Ev.dispatch d ∈ trace)
+    (hd' : Ev.dispatch d' ∈ trace) (hc : d.comp = d'.comp) : d = d' := by
+  have h1 := dispatchOf_eq_of_mem (h.count d.comp).1 hd
+  have h2 := dispatchOf_eq_of_mem (h.count d'.comp).1 hd'
+  rw [hc, h2] at h1
+  exact (Option.some.inj h1).symm
+
+/-- at a dispatch, "changed by an earlier answer" is the same as "fed by the source's
+reaction": all in-extent sources have answered before (C01), the others never answer. -/
+theorem changed_iff_fed {w : Wiring} (hw : RouterOK w) {react : React Val} {t : SimTime}
+    {roots : List Comp} {s : TickSys Val} (hi : TickInv w t roots s)
+    (he : EqInv w react t roots s) {pre post : List (Ev Val)} {d : Dispatch Val}
+    (htr : s.trace = pre ++ Ev.dispatch d :: post) (q : Port) (v : Val) :
+    Changed w pre d.comp q v ↔ Fed w react s.trace d.comp q v := by
+  have hdm : Ev.dispatch d ∈ s.trace := by rw [htr]; simp
+  constructor
+  · rintro ⟨a, chs, p, hm, hc, hp⟩
+    have hm' : Ev.answer a chs ∈ s.trace := by rw [htr]; exact List.mem_append_left _ hm
+    obtain ⟨d', hd', rfl, rfl⟩ := he.pre.ans a chs hm'
+    exact ⟨_, p, d', hc, dispatchOf_eq_of_mem (hi.pre.count _).1 hd', hp⟩
+  · rintro ⟨a, p, d', hc, hdo, hp⟩
+    obtain ⟨hd', rfl⟩ := dispatchOf_eq_some hdo
+    obtain ⟨us, hus⟩ := Option.isSome_iff_exists.1 (he.pre.ups d hdm)
+    have hau : d'.comp ∈ us := (hw.ups_edge _ us hus _).2 ⟨p, q, hc⟩
+    obtain ⟨ch, hch⟩ := hi.pre.order pre d post htr us hus _ hau (hi.pre.disp_ext d' hd').1
+    have hch' : Ev.answer d'.comp ch ∈ s.trace := by rw [htr]; exact List.mem_append_left _ hch
+    obtain ⟨d'', hd'', hc'', rfl⟩ := he.pre.ans _ ch hch'
+    have := hi.pre.dispatch_unique hd'' hd' hc''
+    subst this
+    exact ⟨_, _, p, hch, hc, hp⟩
+
+/-- **what a dispatch is**, in run-independent terms: the component dispatched to is known to
+the inverse tree, and it gets an `Input` carrying exactly the ports fed by its sources'
+reactions if it is a root or some port is fed, a `Skip` otherwise. -/
+theorem dispatch_spec {w : Wiring} (hw : RouterOK w) {react : React Val} (hr : ReactWF react)
+    {t : SimTime} {roots : List Comp} {s : TickSys Val} (hs : s.Reachable w react t roots)
+    {c : Comp} {d : Dispatch Val} (hd : dispatchOf s.trace c = some d) :
+    c ∈ extent w roots ∧ (∃ us, w.ups c = some us) ∧
+      ((∃ ins, d = .input c t ins ∧ (c ∈ roots ∨ ∃ q v, Fed w react s.trace c q v) ∧
+          ∀ q v, alookup ins q = some v ↔ Fed w react s.trace c q v) ∨
+        (d = .skip c t ∧ c ∉ roots ∧ ∀ q v, ¬ Fed w react s.trace c q v)) := by
+  have hi := hs.inv
+  have he := hs.eqInv hw hr
+  obtain ⟨hm, rfl⟩ := dispatchOf_eq_some hd
+  obtain ⟨pre, post, htr⟩ := List.append_of_mem hm
+  refine ⟨(hi.pre.disp_ext d hm).1, Option.isSome_iff_exists.1 (he.pre.ups d hm), ?_⟩
+  have hcf := changed_iff_fed hw hi he htr
+  rcases (he.pre.dec pre d post htr).spec with ⟨ins, h1, h2, h3⟩ | ⟨h1, h2, h3⟩
+  · refine Or.inl ⟨ins, h1, ?_, fun q v => (h3 q v).trans (hcf q v)⟩
+    rcases h2 with h2 | ⟨q, v, h2⟩
+    · exact Or.inl h2
+    · exact Or.inr ⟨q, v, (hcf q v).1 h2⟩
+  · exact Or.inr ⟨h1, h2, fun q v hf => h3 q v ((hcf q v).2 hf)⟩
+
+/-- in a complete run exactly the members of the extent have been dispatched. -/
+theorem dispatchOf_eq_none_iff_of_complete {w : Wiring} (hw : RouterOK w) {react : React Val}
+    (hr : ReactWF react) {t : SimTime} {roots : List Comp} {s : TickSys Val}
+    (hs : s.Reachable w react t roots) (hf : s.tk.toUpdate = []) (c : Comp) :
+    dispatchOf s.trace c = none ↔ c ∉ extent w roots := by
+  have hi := hs.inv
+  have he := hs.eqInv hw hr
+  constructor
+  · intro hn hc
+    obtain ⟨ch, hch⟩ := (hi.pre.resolved c hc).1 (by rw [hf]; rfl)
+    obtain ⟨d, hd, hdc, _⟩ := he.pre.ans c ch hch
+    exact dispatchOf_eq_none_iff.1 hn d hd hdc
+  · intro hc
+    rw [dispatchOf_eq_none_iff]
+    intro d hd hdc
+    exact hc (hdc ▸ (hi.pre.disp_ext d hd).1)
+
+/-! ### schedule independence -/
+
+/-- the relation asserted by `tick_deterministic` between the dispatches of a component in
+two runs. -/
+def SameDispatch (o1 o2 : Option (Dispatch Val)) : Prop :=
+  match o1, o2 with
+  | some d1, some d2 => Dispatch.Equiv d1 d2
+  | none, none => True
+  | _, _ => False
+
+theorem Dispatch.Equiv.answerOf_eq {react : React Val} (hext : ReactExt react)
+    {d1 d2 : Dispatch Val} (h : Dispatch.Equiv d1 d2) : answerOf react d1 = answerOf react d2 := by
+  cases d1 <;> cases d2 <;> simp only [Dispatch.Equiv] at h
+  · obtain ⟨rfl, _, h⟩ := h
+    exact hext _ _ _ h
+  · rfl
+
+theorem SameDispatch.fwd {react : React Val} (hext : ReactExt react)
+    {o1 o2 : Option (Dispatch Val)} (h : SameDispatch o1 o2) {d : Dispatch Val}
+    (hd : o1 = some d) : ∃ d', o2 = some d' ∧ answerOf react d = answerOf react d' := by
+  subst hd
+  cases o2 with
+  | none => exact h.elim
+  | some d' => exact ⟨d', rfl, Dispatch.Equiv.answerOf_eq hext h⟩
+
+theorem SameDispatch.bwd {react : React Val} (hext : ReactExt react)
+    {o1 o2 : Option (Dispatch Val)} (h : SameDispatch o1 o2) {d' : Dispatch Val}
+    (hd : o2 = some d') : ∃ d, o1 = some d ∧ answerOf react d = answerOf react d' := by
+  subst hd
+  cases o1 with
+  | none => exact h.elim
+  | some d => exact ⟨d, rfl, Dispatch.Equiv.answerOf_eq hext h⟩
+
+/-- **schedule independence of one tick**: in two complete runs of the same tick every
+component has the same dispatch up to the order of the changes. -/
+theorem sameDispatch_of_complete {w : Wiring} (hw : RouterOK w) (hacyc : w.Acyclic)
+    {react : React Val} (hr : ReactWF react) (hext : ReactExt react) {t : SimTime}
+    {roots : List Comp} {s1 s2 : TickSys Val} (h1 : s1.Reachable w react t roots)
+    (h2 : s2.Reachable w react t roots) (hf1 : s1.tk.toUpdate = []) (hf2 : s2.tk.toUpdate = [])
+    (c : Comp) : SameDispatch (dispatchOf s1.trace c) (dispatchOf s2.trace c) := by
+  obtain ⟨rank, hrank⟩ := hacyc
+  suffices key : ∀ n c, rank c < n →
+      SameDispatch (dispatchOf s1.trace c) (dispatchOf s2.trace c) from
+    key _ c (Nat.lt_succ_self _)
+  intro n
+  induction n with
+  | zero => intro c hc; omega
+  | succ n ih =>
+    intro c hc
+    cases h1c : dispatchOf s1.trace c with
+    | none =>
+      have hce := (dispatchOf_eq_none_iff_of_complete hw hr h1 hf1 c).1 h1c
+      rw [(dispatchOf_eq_none_iff_of_complete hw hr h2 hf2 c).2 hce]
+      trivial
+    | some d1 =>
+      obtain ⟨hce, ⟨us, hus⟩, hsp1⟩ := dispatch_spec hw hr h1 h1c
+      cases h2c : dispatchOf s2.trace c with
+      | none => exact absurd hce ((dispatchOf_eq_none_iff_of_complete hw hr h2 hf2 c).1 h2c)
+      | some d2 =>
+        obtain ⟨_, _, hsp2⟩ := dispatch_spec hw hr h2 h2c
+        have hP : ∀ a p q, w.Conn a p c q →
+            SameDispatch (dispatchOf s1.trace a) (dispatchOf s2.trace a) := by
+          intro a p q hconn
+          have := hrank c us a hus ((hw.ups_edge c us hus a).2 ⟨p, q, hconn⟩)
+          exact ih a (by omega)
+        have hfed : ∀ q v, Fed w react s1.trace c q v ↔ Fed w react s2.trace c q v := by
+          intro q v
+          constructor
+          · rintro ⟨a, p, d, hconn, hd, hv⟩
+            obtain ⟨d', hd', he⟩ := (hP a p q hconn).fwd hext hd
+            exact ⟨a, p, d', hconn, hd', he ▸ hv⟩
+          · rintro ⟨a, p, d', hconn, hd', hv⟩
+            obtain ⟨d, hd, he⟩ := (hP a p q hconn).bwd hext hd'
+            exact ⟨a, p, d, hconn, hd, he ▸ hv⟩
+        rcases hsp1 with ⟨i1, rfl, hr1, hi1⟩ | ⟨rfl, hn1, hno1⟩ <;>
+          rcases hsp2 with ⟨i2, rfl, hr2, hi2⟩ | ⟨rfl, hn2, hno2⟩
+        · exact ⟨rfl, rfl, fun q => option_ext_some (fun v =>
+            (hi1 q v).trans ((hfed q v).trans (hi2 q v).symm))⟩
+        · rcases hr1 with hr1 | ⟨q, v, hr1⟩
+          · exact absurd hr1 hn2
+          · exact absurd ((hfed q v).1 hr1) (hno2 q v)
+        · rcases hr2 with hr2 | ⟨q, v, hr2⟩
+          · exact absurd hr2 hn1
+          · exact absurd ((hfed q v).2 hr2) (hno1 q v)
+        · exact ⟨rfl, rfl⟩
 
 end Tickit
